@@ -30,6 +30,11 @@ type c19Prog struct {
 	Pool []synthEntry `json:"pool"` // distinct Hash values
 	Perm []int        `json:"perm"` // shuffle choices for the sort check
 	Dups []int        `json:"dups"` // indices duplicated in the list that is sorted
+	// Long > 0: additionally a list of that many entries with distinct clock times is sorted from nearly ordered
+	// arrangements (the ordered list with the exchanges Swaps[i] <-> Swaps[i]+1 applied, or rotated by Swaps[0])
+	Long  int   `json:"long,omitempty"`
+	Swaps []int `json:"swaps,omitempty"`
+	Rot   bool  `json:"rot,omitempty"`
 }
 
 var hashPool = func() []cid.Cid {
@@ -87,6 +92,11 @@ func genC19(t *rapid.T) c19Prog {
 	}
 	p.Perm = rapid.SliceOfN(rapid.IntRange(0, 1<<20), n+3, n+3).Draw(t, "perm")
 	p.Dups = rapid.SliceOfN(rapid.IntRange(0, n-1), 0, 3).Draw(t, "dups")
+	if rapid.IntRange(0, 3).Draw(t, "long") == 0 {
+		p.Long = rapid.IntRange(10, 70).Draw(t, "longN")
+		p.Swaps = rapid.SliceOfN(rapid.OneOf(rapid.IntRange(0, 2), rapid.IntRange(0, p.Long-2), rapid.IntRange(p.Long-4, p.Long-2)), 1, 3).Draw(t, "swaps")
+		p.Rot = rapid.IntRange(0, 4).Draw(t, "rot") == 0
+	}
 	return p
 }
 
@@ -314,7 +324,61 @@ func runC19(tb ev.TB, p c19Prog) ev.Result {
 			tb.Fatalf("ascending sort is not the reverse of descending sort")
 		}
 	}
+	// ---- long lists, nearly ordered on input (sort implementations treat short and long, ordered and unordered
+	// input differently)
+	if p.Long > 0 {
+		base := make([]iface.IPFSLogEntry, p.Long)
+		for i := range base {
+			base[i] = mk(synthEntry{Time: 1 + 2*i, ID: idPool[(i*7)%len(idPool)], Hash: (i * 13) % 64})
+		}
+		arrange := func(asc bool) []iface.IPFSLogEntry {
+			l := append([]iface.IPFSLogEntry(nil), base...)
+			if !asc {
+				for i, j := 0, len(l)-1; i < j; i, j = i+1, j-1 {
+					l[i], l[j] = l[j], l[i]
+				}
+			}
+			if p.Rot {
+				k := p.Swaps[0] % len(l)
+				l = append(append([]iface.IPFSLogEntry(nil), l[k:]...), l[:k]...)
+			} else {
+				for _, sw := range p.Swaps {
+					if sw < 0 {
+						sw = 0
+					}
+					sw %= len(l) - 1
+					l[sw], l[sw+1] = l[sw+1], l[sw]
+				}
+			}
+			return l
+		}
+		for _, s := range []sorter{{"SortByEntryHash", sorting.SortByEntryHash, true}, {"LastWriteWins", sorting.LastWriteWins, true}, {"FirstWriteWins", sorting.FirstWriteWins, true}, {"NoZeroes(LastWriteWins)", sorting.NoZeroes(sorting.LastWriteWins), true}} {
+			for _, rev := range []bool{false, true} {
+				for _, asc := range []bool{true, false} {
+					l := arrange(asc)
+					in := hashesOf(l)
+					sorting.Sort(s.fn, l, rev)
+					out := hashesOf(l)
+					if !sameMultiset(in, out) {
+						tb.Fatalf("Sort(%s, rev=%v) of %d nearly ordered entries is not a permutation of its input", s.name, rev, p.Long)
+					}
+					for x := 0; x+1 < len(l); x++ {
+						r, err := s.fn(l[x], l[x+1])
+						if err != nil {
+							continue
+						}
+						if (!rev && r > 0) || (rev && r < 0) {
+							tb.Fatalf("Sort(%s, rev=%v) of %d nearly ordered entries (exchanges %v, rotated %v, from the %s side): output not ordered at %d", s.name, rev, p.Long, p.Swaps, p.Rot, map[bool]string{true: "ascending", false: "descending"}[asc], x)
+						}
+					}
+				}
+			}
+		}
+	}
 	cl := []string{}
+	if p.Long > 20 {
+		cl = append(cl, "long-nearly-ordered-list")
+	}
 	if eqTime {
 		cl = append(cl, "eq-time-pair")
 	}
